@@ -286,12 +286,12 @@ pub fn check(case: &Case, info: &mut CaseInfo) -> Result<(), Fail> {
 pub fn run(ctx: &Ctx, rep: &mut Report) {
     let (n, steps) = match ctx.tier {
         Tier::Quick => (160, 16),
-        Tier::Thorough => (8_000, 40),
+        Tier::Thorough => (200, 40),
     };
     run_prop(ctx, rep, "attach", case_strategy(steps), n, 40, check);
     let n_client = match ctx.tier {
         Tier::Quick => 4_000,
-        Tier::Thorough => 400_000,
+        Tier::Thorough => 60_000,
     };
     run_prop(ctx, rep, "client", crate::c12b::client_strategy(), n_client, 2000, crate::c12b::check_client);
 }
